@@ -56,7 +56,18 @@ func (c Cand) uncovered() []int {
 // mustReject is the property's right-hand side.
 func (c Cand) mustReject() bool { return !c.Default && len(c.uncovered()) > 0 }
 
-func caseName(i int) string { return fmt.Sprintf("Kase%d", i) }
+// caseName: case i of the matched union; negative numbers name something that is NOT a case of it
+// (used only in arms that do not bind a payload, and only in candidates that must be rejected anyway
+// because a real case is missing): -1 a payload-less case of the other union Outer, -2 an undeclared name.
+func caseName(i int) string {
+	switch i {
+	case -1:
+		return "Second"
+	case -2:
+		return "Kase9x"
+	}
+	return fmt.Sprintf("Kase%d", i)
+}
 
 func (c Cand) typeDecl() (decl string, tname string, targ string) {
 	var sb strings.Builder
@@ -433,6 +444,12 @@ func labelsOf(c Cand) []string {
 	if c.Decl != "" && c.Decl != "plain" {
 		l = append(l, "decl:"+c.Decl)
 	}
+	for _, a := range c.Arms {
+		if a.Case < 0 {
+			l = append(l, "an arm names something that is not a case of the union")
+			break
+		}
+	}
 	return l
 }
 
@@ -579,6 +596,15 @@ func TestMatchContexts(t *testing.T) {
 			c.Arms = append(c.Arms, Arm{i, form})
 		}
 		c.Default = rapid.IntRange(0, 2).Draw(rt, "default") == 0
+		if c.mustReject() && c.Ctx != "outerarm" && c.Ctx != "outerlastarm" && c.Ctx != "outerarmdefault" && rapid.IntRange(0, 3).Draw(rt, "foreignArm") == 0 {
+			// an arm that names a case of another union, or nothing at all, does not cover the missing case
+			fa := Arm{Case: rapid.SampledFrom([]int{-1, -2}).Draw(rt, "foreignCase"), Form: "none"}
+			if fa.Case == -2 && rapid.Bool().Draw(rt, "foreignIgnore") {
+				fa.Form = "ignore"
+			}
+			at := rapid.IntRange(0, len(c.Arms)).Draw(rt, "foreignAt")
+			c.Arms = append(c.Arms[:at], append([]Arm{fa}, c.Arms[at:]...)...)
+		}
 		e.Record("TestMatchContexts", vt.HashJSON(c), nontrivial(c), labelsOf(c), func() any {
 			_, contents := c.files()
 			return map[string]any{"candidate": c, "source": strings.Join(contents, "\n-----\n"), "must_reject": c.mustReject()}
